@@ -42,11 +42,85 @@ class Session(object):
             a = self.impl.exec(op, args)
             if getattr(self, "traced", False) and op in C.WRITE_OPS and op not in (1, 13):
                 meta = dict(meta, trace=[[1 if tg == "t" else 0, blk, data] for tg, blk, data in self.impl.trace[t0:]])
+        if op in (1, 14):
+            self.spec_off = False       # a (re)created index: the specification state is exact again
+        if getattr(self, "spec_off", False):
+            meta = dict(meta, nospec=True)
         self.cmds.append((op, args))
         self.meta.append(meta)
         self.ians.append(a)
         if op in C.WRITE_OPS:
             G.track(self.tr, op, args, a)
+        return a
+
+    def abandon(self, rng, partial=False, given=None, retry=None):
+        """requests that are issued and then dropped (opcode 81).  partial=False: the writing requests among them never run a
+        step (they must leave nothing behind), the queries are advanced a few steps.  partial=True: one writing request is
+        also advanced some steps and dropped half-way; the specification state is then no longer consulted (the model
+        still is), except that a rule installation dropped half-way and then re-issued and completed must end where the
+        complete installation alone ends."""
+        tr = self.tr
+        specs = []
+        for k in range(rng.randint(1, 3) if given is None else 0):
+            r = rng.random()
+            if r < 0.4:
+                anchors = [x[0] for x in tr.rules]
+                p = rng.choice(anchors) if anchors and rng.random() < 0.6 else G.pick_prefix(rng, tr)
+                specs.append([1, p, rng.choice([0, 1, 2, 3])])
+            elif r < 0.65:
+                pool = [G.pick_lru(rng, tr) for _ in range(rng.randint(2, 4))]
+                data, seen = [], set()
+                for _ in range(rng.randint(1, 3)):
+                    src = rng.choice(pool)
+                    if src not in seen:
+                        seen.add(src)
+                        data.append([src, [rng.choice(pool) for _ in range(rng.choice([0, 1, 2, 3]))]])
+                specs.append([0, data])
+            elif r < 0.8 and tr.pref:
+                w = rng.choice(tr.weids())
+                specs.append([2, w, tr.prefixes_of(w)])
+            elif r < 0.9 and tr.pref:
+                w = rng.choice(tr.weids())
+                specs.append([4, w, tr.prefixes_of(w)] + list(rng.choice([(0, 1, 0), (1, 1, 1), (0, 1, 1)])))
+            else:
+                specs.append([3, rng.randint(0, 1), rng.randint(0, 1)])
+        writers = [k for k, sp in enumerate(specs) if sp[0] in (0, 1)]
+        queries = [k for k, sp in enumerate(specs) if sp[0] not in (0, 1)]
+        sched = [rng.choice(queries) for _ in range(rng.randint(0, 6))] if queries else []
+        started = None
+        if given is not None:
+            specs, sched, started = given
+            partial, writers = False, []
+        if partial == "rule":
+            writers = [k for k in writers if specs[k][0] == 1]
+        if partial and writers:
+            started = rng.choice(writers)
+            for _ in range(rng.randint(1, 5)):
+                sched.insert(rng.randint(0, len(sched)), started)
+        self.notes = getattr(self, "notes", [])
+        self.notes.append("abandoned_halfway" if started is not None else "abandoned_unstarted")
+        a = self.do(81, [specs, sched], abandon=True)
+        if started is None or C.is_err(a):
+            return a
+        sp = specs[started]
+        if sp[0] == 1:
+            # the first step of an installation makes the rule known (RAM and node flag): a later reopen re-supplies it
+            tr.lrus.append(sp[1])
+            tr.rules = [x for x in tr.rules if x[0] != sp[1]] + [(sp[1], sp[2])]
+        if sp[0] == 0:
+            for src, tg in sp[1]:
+                tr.lrus += [src] + list(tg)
+                tr.pages += [src] + list(tg)
+        if a[started][0] == 0:
+            was_off = getattr(self, "spec_off", False)
+            self.spec_off = True
+            if sp[0] == 1 and (partial == "rule" or rng.random() < 0.8 if retry is None else retry):
+                # the same installation again, to its end
+                if rng.random() < 0.5:
+                    self.do(35, [])
+                    self.do(36, [])
+                self.do(11, [sp[1], sp[2]])
+                self.spec_off = was_off
         return a
 
     def close(self):
@@ -185,15 +259,56 @@ class Session(object):
             model, spec = ms[0], ms[1]
             if not C.eq(C.canon(op, got), C.canon(op, model)):
                 mism.append(C.Mismatch(i, op, "model", got, model))
+            if meta.get("nospec"):
+                continue
             note = C.spec_check(op, args, got, spec, meta.get("clean", False))
             if note:
                 mism.append(C.Mismatch(i, op, "spec", got, spec, note))
+        mism += self.self_consistency()
         for g in self.groups:
+            if any(self.meta[i].get("nospec") for i in g["idx"]):
+                continue
             note = self.group_check(g)
             if note:
                 i = g["idx"][0]
                 mism.append(C.Mismatch(i, self.cmds[i][0], "spec", "session " + repr(g["idx"]), "-", note))
         return mism
+
+    def self_consistency(self):
+        """the page count, the crawled-page count and the metrics against the page enumeration of the same moment (answers
+        given with no write request in between): needs no specification state, so it also speaks after a dropped request"""
+        out = []
+        pages = None
+        submitted = set()
+        for i, ((op, args), got) in enumerate(zip(self.cmds, self.ians)):
+            if op in (1, 14):
+                submitted = set()
+            elif op == 2:
+                submitted.add(args[0])
+            elif op == 3:
+                submitted |= set(args[0])
+            elif op == 4:
+                submitted |= set(x for pr in args[0] for x in pr)
+            elif op == 5 or op in (80, 81):
+                for data in ([args[0]] if op == 5 else [sp[1] for sp in args[0] if sp[0] == 0]):
+                    for src, tg in data:
+                        submitted |= {src} | set(tg)
+            if op in C.WRITE_OPS or op in (80, 81):
+                pages = None
+                continue
+            if C.is_err(got) or got is None:
+                continue
+            if op == 35:
+                pages = got
+                if len(set(p[0] for p in got)) != len(got):
+                    out.append(C.Mismatch(i, 35, "spec", got, "-", "a page is enumerated twice"))
+                elif not set(p[0] for p in got) <= submitted:
+                    out.append(C.Mismatch(i, 35, "spec", got, "-", "a page is enumerated that was never submitted"))
+            elif op == 38 and pages is not None:
+                want = [len(pages), sum(1 for p in pages if p[1]), got[2]]
+                if got[:2] != want[:2]:
+                    out.append(C.Mismatch(i, 38, "spec", got, want, "page counts differ from the page enumeration of the same moment"))
+        return out
 
     def group_check(self, g):
         """pagination oracle: the chain of answers against the full sequence the specification dictates"""
